@@ -290,6 +290,36 @@ def run(ctx):
         chk.ob("cli/exit/%s" % path, code == 1 and guarded_by_err and path == "B::main",
                "the process exits with status 1, only in main, only when the sub-command returned an error",
                "%s:%s" % (b.file, t["ln"]), "exit code %r, guarded by Err: %s" % (code, guarded_by_err))
+    # failing to read or to parse the program makes every sub-command return an error (which main turns into exit 1)
+    perr_t = p.need_type("L::parser::implementation::error::ParserError")
+    parse_errs = {v["n"]: En({1: (En({i: tuple(TOP for _ in v["fields"])}),)}) for i, v in enumerate(perr_t["variants"])}
+    from .. import shapes as _shapes
+
+    def subcommand(fn, read_ok, parse_result):
+        I2 = absint.Interp(p)
+        I2.fn_overrides["std::fs::read_to_string"] = lambda I_, st_, d_, c_, a_, b_, l_: (
+            En({0: (Opaque("TEXT"),)}) if read_ok else En({1: (Opaque("IOERR"),)}))
+        I2.fn_overrides["L::parser::implementation::AsmParser::parse"] = lambda I_, st_, d_, c_, a_, b_, l_: parse_result
+        st_ = absint.State()
+        aty = p.need_body(fn).locals[1]["ty"].lstrip("&")
+        v_ = _shapes.build(p, aty, _shapes.top_leaf, (), {}) if aty in p.types else TOP
+        aa = I2.new_alloc(st_, "args", v_)
+        r_ = I2.run_body(p.need_body(fn), [Ref(aa, (), False)], st_, 0)
+        return set(r_.vs) if isinstance(r_, En) else None
+    for fn in ("B::run_verification", "B::run_runner"):
+        short = fn.rsplit("::", 1)[-1]
+        got = subcommand(fn, False, None)
+        chk.ob("cli/error-propagates/%s/unreadable-file" % short, got == {1},
+               "a program file that cannot be read makes the sub-command fail", p.need_body(fn).loc(), "result variants: %s" % got)
+        for en, ev in parse_errs.items():
+            got = subcommand(fn, True, ev)
+            chk.ob("cli/error-propagates/%s/%s" % (short, en), got == {1},
+                   "a program that does not parse (%s) makes the sub-command fail, whatever the kind of parse error" % en,
+                   p.need_body(fn).loc(), "result variants: %s (0 = Ok, 1 = Err)" % got,
+                   "abstract interpretation with stand-ins for fs::read_to_string and AsmParser::parse")
+    got = subcommand("B::run_verification", True, En({0: (Opaque("ASM"),)}))
+    chk.ob("cli/verify-accepts-valid", got == {0}, "`verify` succeeds for a program that parses", p.need_body("B::run_verification").loc(),
+           "result variants: %s" % got)
     eb = p.need_body("B::runner::execute_runner_with_args_and_print_results")
     calls = [(bb, mirutil.callee_name(t), t) for bb, t in mirutil.calls_in(eb)]
     dom = mirutil.dominators(eb)
